@@ -14,12 +14,17 @@ def run(ctx):
     ctx.prove(MODULES)
     ctx.suites_run.append(oracles.SUITE)
     rng = ctx.rng
-    n = 10 if not ctx.thorough else 50
-    ctx.rule("all exported optimizers × continuous tasks × population 1×/1.5×/2×/3× the documented scale × cycle budgets 1..6 × seeds × serial/thread/process with 1..16 workers: "
+    n = 16 if not ctx.thorough else 80
+    ctx.rule("all exported optimizers × continuous tasks × population 1×/1.5×/2×/3× the documented scale (+0/+1/+3/+7 agents: sizes that are not multiples of group counts) × one algorithm parameter moved inside its validator range in half of the runs (plus a systematic sweep: every accepted candidate value of every algorithm parameter once) × cycle budgets 1..6 × seeds × serial/thread/process with 1..16 workers: "
              "len(generation) for every generation; a case = one run; non-trivial = ≥ 2 generations")
     js = jobs.make_jobs(rng, optimizers.names(), ["cont-sym", "cont", "cont-zero", "cont-scalars"], n,
                         modes=("serial", "serial", "thread", "process") if not ctx.thorough else ("serial", "thread", "process"),
-                        max_cycles_choices=(1, 2, 3, 4, 6), pop_scales=(1, 1.5, 2, 3), trace_events=False)
+                        max_cycles_choices=(1, 2, 3, 4, 6), pop_scales=(1, 1.5, 2, 3), pop_offsets=(0, 0, 1, 3, 7), vary_params=0.5, trace_events=False)
+    # systematic sweep: every accepted value of every algorithm parameter once, at the documented population size
+    for name in optimizers.names():
+        for k, v in optimizers.param_variants(name):
+            js.append({"name": name, "kind": "cont-sym", "specs": trace.task_specs(rng, "cont-sym", 3), "objective": "sphere", "minmax": "min", "seed": rng.randrange(1, 10 ** 6),
+                       "cfg": {"max_cycles": 2, "fitness_error": None, k: v}, "mode": "serial", "trace": False})
     for j in js:
         if j["mode"] != "serial":
             j["workers"] = rng.choice([1, 2, 3, 4, 8, 16])
